@@ -367,12 +367,13 @@ func (w *World) Reset() {
 // For type-safe generics queries, see package [github.com/mlange-42/arche/generic].
 // For advanced filtering, see package [github.com/mlange-42/arche/filter].
 func (w *World) Query(filter Filter) Query {
-	l := w.lock()
 	if cached, ok := filter.(*CachedFilter); ok {
-		return newCachedQuery(w, cached.filter, l, w.filterCache.get(cached).Archetypes.pointers)
+		// Resolve the filter before locking: an unregistered filter panics here.
+		archetypes := w.filterCache.get(cached).Archetypes.pointers
+		return newCachedQuery(w, cached.filter, w.lock(), archetypes)
 	}
 
-	return newQuery(w, filter, l, w.nodePointers)
+	return newQuery(w, filter, w.lock(), w.nodePointers)
 }
 
 // Resources of the world.
